@@ -436,3 +436,36 @@ Section MP.
     (eapply all_ix_impl; [|exact H]; intros l v [Hc [Hr _]]; split; [exact Hc|]; split; [exact Hr|]; intros HP; rewrite Hr; unfold gsamples, mp_rowof;
      rewrite <- (map_map (sigma l) (fun n => rowat l (sample l n))); now apply Permutation_map). Qed.
 End MP.
+
+(* ==================================================================== wave 8 (audit 5a B7): what price() / mlmc_results READ, tied to the rows
+   Model/MlmcVec.v proj_lev / lev_of / gprice were evaluated by the correspondence (corr_cv) but occurred in no theorem.
+   The first three lemmas are BOOKKEEPING (map fusion; stated so that the evaluated definitions are the ones the theorems speak about). *)
+Lemma proj_lev_is_projection j v : proj_lev j v = plev (pr_j j) v.
+Proof. reflexivity. Qed.
+Lemma lev_of_no_controls j v : lev_of 0 j v = proj_lev j v.
+Proof. unfold lev_of, proj_lev, reported_rows. now rewrite map_map. Qed.
+Lemma gprice_is_mlmc_price nc vs : gprice nc vs = mlmc_price (map (lev_of nc 0) vs).
+Proof. unfold gprice, vec_price, mlmc_price. rewrite !map_map. f_equal. apply map_ext. intros v.
+  unfold fines, coarses, lev_of. cbn [lrows]. now rewrite !map_map. Qed.
+
+(* without controls: the level records the code computes ml, vl, mean, var, kurtosis from (lev_of 0 j: component j of the rows
+   _get_payoff_statistics selects) are the projections of the stored rows, and they satisfy results_ok for the samples pay_j of
+   exactly the simulated paths; price() of the model is mlmc_price of the component-0 records *)
+Theorem reported_results_no_controls sample pay d ctl cnot prices bst df notional cost alloc conv garbA garbB level_max j fuel L0 N0 s :
+  (j < d)%nat ->
+  (gprice_run (srow_of sample pay d ctl cnot 0 df notional) (coef_c d bst) (adj_c d prices) (zero_srow d 0)
+              (repeat zero_row d) cost alloc conv garbA garbB level_max fuel L0 N0 = Converged s \/
+   gprice_run (srow_of sample pay d ctl cnot 0 df notional) (coef_c d bst) (adj_c d prices) (zero_srow d 0)
+              (repeat zero_row d) cost alloc conv garbA garbB level_max fuel L0 N0 = Fallthrough s) ->
+  map (lev_of 0 j) (glevels s) = map (proj_lev j) (glevels s)
+  /\ all_lev (results_ok (smp_j sample pay j) df notional) 0 (map (lev_of 0 j) (glevels s))
+  /\ gprice 0 (glevels s) = mlmc_price (map (lev_of 0 0) (glevels s)).
+Proof. intros Hj H.
+  assert (E0 : map (lev_of 0 j) (glevels s) = map (proj_lev j) (glevels s)) by (apply map_ext; intros v; apply lev_of_no_controls).
+  split; [exact E0|]. split.
+  - rewrite E0.
+    pose proof (component_is_scalar_run sample pay d ctl cnot 0 prices bst df notional cost alloc conv garbA garbB level_max j fuel L0 N0 Hj) as E.
+    apply (results_from_same_rows (smp_j sample pay j) cost alloc conv (fun l n => pr_j j (garbA l n)) df notional level_max fuel L0 N0 (pstate (pr_j j) s)).
+    destruct H as [H|H]; rewrite H in E; simpl in E; [left|right]; now rewrite <- E.
+  - apply gprice_is_mlmc_price.
+Qed.
